@@ -29,7 +29,7 @@ CHECKS["C12"] = dict(
     technique="explicit-state model checking of the implementation: every API history up to a depth bound executed on the real exporter in lockstep with a reference state machine",
     level_text="All operation histories over an 11-operation alphabet (storable/unstorable records, repeated address-event keys, explicit block writes, rotation, parameter switches incl. an out-of-range one) up to the depth bound are executed on the real CdnsExporter for 24 configurations; after every step return-value sign and all counters are compared with the reference model, at the end every output is parsed independently and compared block by block (sizes, order, conservation).",
     level_note="Trusted: harness/model.hpp (reference state machine), ref/ parser. Histories deeper than the bound and max_block_items > 3 are outside the claim (the block-full rule only compares three sizes with the maximum).",
-    stages=[dict(harness="hist", variant="plain", args=["--mode", "flush"])],
+    stages=[dict(harness="hist", variant="plain", args=["--mode", "flush"], require=["blocks_validated"])],
     rule="stateless DFS: for each of 24 configurations (max_block_items {0,1,2,3}x{1,2}, hints {all, AEC+MM off, QR time/port only}) every history of length 0..D over the alphabet; a history is non-trivial if it has >= 1 operation; each is distinct by construction",
     bound_quick="every history of length <= 5 (11^5 per configuration)", bound_thorough="every history of length <= 6",
     assumptions=["the reference model (harness/model.hpp) states the intended buffering contract", "record contents are drawn from a fixed pool (7 QR, 3 AEC, 4 MM shapes)"],
@@ -55,8 +55,10 @@ CHECKS["C01"] = dict(
     technique="explicit-state model checking of the implementation: every buffering history up to a depth bound, each output compared three ways (model / library reader / independent RFC 8618 reader)",
     level_text="Histories over 16 operations (6 query/response shapes incl. a fully populated one with all eight RR lists, 3 address-event keys, 3 malformed messages, statistics variants, write_block, parameter switches, rotation) x configurations (4 hint sets x ticks_per_second {1,1e3,1e6,1e9} x max_block_items {1,2,3,10000} x 2 parameter sets) are executed; the file is read back by CdnsReader+read_generic_* and by the independent interpreter and both must equal the model's expectation record for record (timestamps to the tick, AEC totals per key, statistics per block).",
     level_note=_HIST_NOTE,
-    stages=[dict(harness="hist", variant="plain", args=["--mode", "roundtrip"])],
-    rule="stateless DFS, every history of length 0..D per configuration; non-trivial = at least one operation; distinct by construction",
+    stages=[dict(harness="hist", variant="plain", args=["--mode", "roundtrip"], require=["blocks_validated"]),
+            dict(harness="val", variant="asan", args=["--mode", "values"], prefix="values_"),
+            dict(harness="val", variant="asan", args=["--mode", "align"], prefix="align_")],
+    rule="stateless DFS, every history of length 0..D per configuration; value product: every field x every boundary value alone / inside the full record / removed from it (pairs of fields thinned); alignment sweep: a padding string of every length 0..2100 (+ 4095..70000) shifts a record stream with 64-bit values and a preamble with text members across every position of the encoder buffer; two long traces (3000 records in one block, 200 blocks of 3); non-trivial = at least one operation; distinct by construction",
     bound_quick="length <= 3 over 16 ops, 19 configurations", bound_thorough="length <= 4, 64 configurations",
     assumptions=["statistics passed together with an AEC/MM that other_data_hints reject are ignored (model follows the code; the property text is silent)"],
 )
@@ -67,7 +69,8 @@ CHECKS["C02"] = dict(
     level_text="Every closed output of every explored history must be exactly one well-formed CBOR item that validates against the RFC 8618 schema (declared counts, mandatory members, index closure, parameter-set closure); outputs without a block must have zero uncompressed bytes.",
     level_note=_HIST_NOTE,
     stages=[dict(harness="hist", variant="plain", args=["--mode", "wellformed"]),
-            dict(harness="blk", variant="asan", args=["--mode", "direct"], prefix="direct_")],
+            dict(harness="blk", variant="asan", args=["--mode", "direct"], prefix="direct_"),
+            dict(harness="val", variant="asan", args=["--mode", "align"], prefix="align_")],
     rule="stateless DFS over 13 operations incl. BlockStatistics() (present but empty) on QR/AEC/MM calls, unstorable records, rotations, parameter-set additions x 3 configurations (max_block_items 0/2/10000)",
     bound_quick="length <= 4", bound_thorough="length <= 5",
     assumptions=["CDDL '+' (non-empty) cardinalities are not enforced (DESIGN 8.2)"],
@@ -80,7 +83,8 @@ CHECKS["C10"] = dict(
     level_note=_HIST_NOTE,
     stages=[dict(harness="enc", variant="asan", prefix="enc_"),
             dict(harness="hist", variant="plain", args=["--mode", "counts"]),
-            dict(harness="blk", variant="asan", args=["--mode", "direct"], prefix="direct_")],
+            dict(harness="blk", variant="asan", args=["--mode", "direct"], prefix="direct_"),
+            dict(harness="val", variant="asan", args=["--mode", "align"], prefix="align_")],
     rule="E-ENC traces (see C06) + stateless DFS over 10 exporter operations x {memory, gzip, descriptor, named file} sinks",
     bound_quick="exporter histories of length <= 3; encoder: as C06 quick", bound_thorough="exporter histories of length <= 4 (+xz, gzip file); encoder: as C06 thorough",
     assumptions=[],
@@ -140,7 +144,8 @@ CHECKS["C04"] = dict(
     technique="exhaustive configuration enumeration on the implementation: all 2^18 query-response hint masks and all 2^17 signature hint masks, rr x other masks and cross terms, output parsed by the independent reader",
     level_text="For every enumerated hint configuration a block with two fully populated query/responses sharing table values, a repeated address event and two malformed messages is exported and parsed independently: every member present must have its hint bit set, every table entry must be reachable from a stored item, AEC/MM arrays appear only when enabled, the preamble states exactly the configured masks, and the stored block equals the hint-filtered expectation of the reference model (so enabled fields are not lost either).",
     level_note="Trusted: hint-bit table written from RFC 8618 (response question list shares bit 11 - library choice stated in DESIGN 3); ref/ parser. The full cross product 2^18 x 2^17 is covered up to <= 1 (quick) / <= 2 (thorough) deviating bits per side; each guard in the code tests one bit and one field.",
-    stages=[dict(harness="val", variant="asan", args=["--mode", "hints"])],
+    stages=[dict(harness="val", variant="asan", args=["--mode", "hints"]),
+            dict(harness="hist", variant="plain", args=["--mode", "hints-edit"], prefix="edit_", require=["blocks_validated"])],
     rule="mask enumeration: [0,2^18) x {all sig}, {all qr} x [0,2^17), 16 rr/other combinations, cross terms of masks with <= k cleared or <= k set bits on each side; a configuration is non-trivial unless both masks are 0; all distinct",
     bound_quick="cross terms with <= 1 deviation per side x 4 rr/other combinations", bound_thorough="cross terms with <= 2 deviations per side x 16 rr/other combinations",
     assumptions=["ASN, country code and RTT have no hint bit and are always stored"],
@@ -151,7 +156,8 @@ CHECKS["C09"] = dict(
     technique="exhaustive configuration enumeration on the implementation: file preambles written by the exporter and read back by CdnsReader and by the independent reader",
     level_text="Every enumerated FilePreamble (all 256x256 version pairs x private version {absent,0,255}; every subset of the 7 optional storage members x collection parameters {absent, present-empty, subsets}; integers on width boundaries; opcode/RR-type lists of length 0/1/3/300 with unassigned codes and duplicates; empty/ASCII/multi-byte UTF-8/300-byte texts; 1..8 parameter sets through all four construction paths) is written and compared member for member (absent != empty != default) with CdnsReader::m_file_preamble and with the independent interpretation of the bytes.",
     level_note="Trusted: ref/ reader; own comparator via canonical dumps. The two-argument FilePreamble constructor ignoring its private_version argument is outside the property (object compared as it stands before writing).",
-    stages=[dict(harness="val", variant="asan", args=["--mode", "preamble"])],
+    stages=[dict(harness="val", variant="asan", args=["--mode", "preamble"]),
+            dict(harness="val", variant="asan", args=["--mode", "align"], prefix="align_")],
     rule="enumerated preamble specifications, each exported with one record and read back twice; all distinct and non-trivial",
     bound_quick="versions: major 0..255 x minor step 5 (+ all minors for major 1); storage subsets 2^7 x collection {absent, empty, full, single members, all-but-one}", bound_thorough="versions exhaustive 256x256x3; 2^7 x (2^10+1) member subsets",
     assumptions=["vector members of CollectionParameters cannot distinguish empty from absent in the API; both are treated as absent"],
@@ -163,7 +169,7 @@ CHECKS["C17"] = dict(
     level_text="(a) all pairs over a small exhaustive grid (rates 1,2,3,7,10,1000) and over the boundary product (rates 1,1e3,1e6,1e9; seconds 0,1,2^31-1,2^31,2^32-1,2^32,max-1,max; ticks 0,1,rate-1): offset exact, add-back exact and normalised, < and <= order by instant; every offset of {INT64_MIN, INT64_MIN+1, -2^32, -rate-1, -rate, -1, 0, 1, rate-1, rate, 2^32, INT64_MAX} on every grid point: refused exactly when the result would be negative or the rate is 0, refusal leaves the timestamp unchanged; UBSan armed. (b) every arrival order of up to 4 timed/untimed QR/MM/AEC records x time-offset hint on/off x MM hint on/off through the real exporter: every record time recovered exactly by both readers (hence earliest <= every stored time).",
     level_note="Trusted: unsigned __int128 reference arithmetic, ref/ reader. Results >= 2^63 ticks are outside the stated range (only UB-freedom is required there).",
     stages=[dict(harness="val", variant="asan", args=["--mode", "time"]),
-            dict(harness="hist", variant="plain", args=["--mode", "times"], prefix="blocks_")],
+            dict(harness="hist", variant="plain", args=["--mode", "times"], prefix="blocks_", require=["blocks_validated"])],
     rule="grid points enumerated exhaustively; block histories: stateless DFS over 8 record kinds, every history of length <= D x 4 configurations",
     bound_quick="block histories of length <= 4", bound_thorough="block histories of length <= 5",
     assumptions=[],
